@@ -43,6 +43,8 @@ def Id.lt (a b : Id) : Bool := a.kind.idx < b.kind.idx || (a.kind.idx == b.kind.
 /-- Engine state of a row (`store/rows.rs state::*`). -/
 inductive St where
   | pending | active | archived | tombstoned | purged
+  /-- `state::MERGED`: the Concept's identity is now another one's (`merged_into`) -/
+  | merged
   deriving DecidableEq, Repr, Inhabited
 
 structure Row where
@@ -64,7 +66,8 @@ structure Row where
   pay : Nat := 0
   /-- the retention block (`retention.retention_class`) as one code; 0 = none -/
   ret : Nat := 0
-  /-- row ids this record points back at: `supersedes` of an Assertion, `corrects` of Evidence -/
+  /-- row ids this record points at: `supersedes` of an Assertion, `corrects` of Evidence, and for a
+  Concept its `merged_into` pointer (`[n]` = merged into Concept `n`, `[]` = not merged) -/
   links : List Nat := []
   deriving DecidableEq, Repr, Inhabited
 
@@ -77,7 +80,7 @@ structure Elem where
   deriving DecidableEq, Repr, Inhabited
 
 inductive Op where
-  | create | update | archive | tombstone | retract | purge | supersede | correct | transition | setRetention
+  | create | update | archive | tombstone | retract | purge | supersede | correct | transition | setRetention | merge
   deriving DecidableEq, Repr, Inhabited
 
 structure Change where
@@ -348,6 +351,8 @@ inductive Clause where
   | transition (t : Ref) (to : Nat) (expect : Option Nat)
   /-- `SET RETENTION target {retention_class: …} [EXPECT VERSION n]` (named target, no selection block) -/
   | setRetention (t : Ref) (v : Nat) (expect : Option Nat)
+  /-- `MERGE CONCEPT source INTO target [EXPECT VERSION n]` (named operands, no selection block) -/
+  | merge (src into_ : Ref) (expect : Option Nat)
   deriving Repr
 
 /-- the `MutationClause` variant (`kml/clauses.rs` `apply`) a model clause stands for -/
@@ -367,6 +372,7 @@ def Clause.kindName : Clause → String
   | .correct .. => "CorrectEvidence"
   | .transition .. => "TransitionActivity"
   | .setRetention .. => "SetRetention"
+  | .merge .. => "MergeConcept"
 
 /-- one model clause of every kind -/
 def sampleClauses : List Clause :=
@@ -374,16 +380,15 @@ def sampleClauses : List Clause :=
    .createRec .assertion 1 1 [] false, .createRec .evidence 1 1 [] false, .createRec .activity 1 1 [] false,
    .update (.h 1) [] none false, .setState (.h 1) .archived none, .setState (.h 1) .tombstoned none,
    .retract (.h 1) none, .purge (.h 1) false, .supersede (.h 1) (.h 2) none, .correct (.h 1) (.h 2),
-   .transition (.h 1) 5 none, .setRetention (.h 1) 1 none]
+   .transition (.h 1) 5 none, .setRetention (.h 1) 1 none, .merge (.h 1) (.h 2) none]
 
 /-- the clause kinds the model interprets -/
 def modelledKinds : List String := sampleClauses.map Clause.kindName
 
 /-- the clause kinds `clauses::apply` dispatches on that the model does **not** interpret (named, so
 that a kind added to the engine cannot go unnoticed: `Props/C17.lean` `clause_kinds_covered` proves
-every generated kind is in one of the two lists). `MergeConcept` re-points later ENSURE endpoints
-through `merged_into`; it takes the same load / mark_changed / commit path. -/
-def notModelledKinds : List String := ["MergeConcept"]
+every generated kind is in one of the two lists). Empty today. -/
+def notModelledKinds : List String := []
 
 /-- `clauses::plan_pass` -/
 def planPass : Clause → Nat
@@ -413,6 +418,40 @@ def declareClause (c : Clause) (s : Store) (tx : Tx) : PS :=
   | .createConcept h .. => declare s tx h .concept
   | .createRec k h .. => declare s tx h k
   | _ => .ok s tx
+
+/-! ### Canonical identity (`clauses::canonical_chain`, `canonicalize`) -/
+
+/-- the row a transaction sees for `i`: its staged copy if it has one (read-your-writes), else the stored row -/
+def viewRow (s : Store) (tx : Tx) (i : Id) : Option Row :=
+  match stGet tx.staged i with
+  | some x => some x.row
+  | none => (s.elems i).map (·.row)
+
+/-- `canonical_chain`: follow `merged_into` from `cur`, stopping at a row that is not merged, at a row
+that cannot be loaded, or when the next id is already on the chain; at most `fuel` hops (`MAX_HOPS`) -/
+def chainFrom (s : Store) (tx : Tx) : Nat → Id → List Id → List Id
+  | 0, _, chain => chain
+  | fuel + 1, cur, chain =>
+      match viewRow s tx cur with
+      | some r =>
+          match r.links with
+          | [n] =>
+              if (⟨.concept, n⟩ : Id) ∈ chain then chain
+              else chainFrom s tx fuel ⟨.concept, n⟩ (chain ++ [⟨.concept, n⟩])
+          | _ => chain
+      | none => chain
+
+def canonicalChain (s : Store) (tx : Tx) (i : Id) : List Id :=
+  if i.kind = .concept then chainFrom s tx 64 i [i] else [i]
+
+/-- `canonicalize`: the identity that survived (§11.3: a new write canonicalises a merged reference) -/
+def canonical (s : Store) (tx : Tx) (i : Id) : Id := (canonicalChain s tx i).getLast?.getD i
+
+/-- an endpoint of a *new* write: the reference as written, resolved, then canonicalised -/
+def resolveCanon (s : Store) (tx : Tx) (r : Ref) : Except Err Id :=
+  match resolve tx r with
+  | .error e => .error e
+  | .ok i => .ok (canonical s tx i)
 
 /-! ### Planning primitives (`Store → Tx → PS`), chained with `PS.andThen` -/
 
@@ -567,6 +606,18 @@ def transitionGuard (expect : Option Nat) (x : Staged) : Option Err :=
   if (match expect with | some v => x.row.val != v | none => false) then some .precond
   else if terminalStatus x.row.val then some .invalid else none
 
+/-- the write half of `merge_concept`: already merged into this target = nothing to do; merged into
+another one = refused (re-pointing would rewrite an identity decision); else the pointer is set, the
+state becomes `merged` and the Concept counts as changed -/
+def pMergeInto (a b : Id) (s : Store) (tx : Tx) : PS :=
+  match load s tx a with
+  | .error e => .fail s tx e
+  | .ok (tx1, x) =>
+      if a.kind != .concept then .fail s tx1 .invalid
+      else if x.row.links = [b.n] then .ok s tx1
+      else if x.row.links != [] then .fail s tx1 .invalid
+      else .ok s (markChanged tx1 a { x with row := { x.row with links := [b.n] }, state := .merged } .merge)
+
 /-- mint a shell, then continue with its id -/
 def pMint (k : Kind) (cont : Id → Store → Tx → PS) (s : Store) (tx : Tx) : PS :=
   cont (mintShell s tx k).2.2 (mintShell s tx k).1 (mintShell s tx k).2.1
@@ -603,7 +654,10 @@ def applyClause (c : Clause) (s : Store) (tx : Tx) : PS :=
             (pMint .concept (fun id s tx =>
               ((pStageNew id { ty := ty.getD 0, key := key } s tx).andThen (pBind (some h) id)).andThen (pAssign id val)))
   | .ensure h sub p obj expect bad =>
-      match resolve tx sub, resolve tx obj with
+      -- both endpoints are canonicalised before anything is looked up: the tuple key — in the store
+      -- lookup, in the look at the rows staged for creation, and in the row that is staged — is the
+      -- canonical one, so two clauses naming a survivor and its merged-away alias denote one tuple
+      match resolveCanon s tx sub, resolveCanon s tx obj with
       | .error e, _ => .fail s tx e
       | _, .error e => .fail s tx e
       | .ok a, .ok b =>
@@ -674,6 +728,16 @@ def applyClause (c : Clause) (s : Store) (tx : Tx) : PS :=
       | .ok id =>
           ((pLoad id s tx).andThen (pExpect id expect)).andThen
             (pEdit id none noGuard (setRet v) false .setRetention)
+  | .merge src into_ expect =>
+      match resolve tx src, resolve tx into_ with
+      | .error e, _ => .fail s tx e
+      | _, .error e => .fail s tx e
+      | .ok a, .ok b =>
+          -- both operands are authorised (loaded) first; itself; kinds; the version guard; the target's
+          -- chain must not lead back to the source (canonical resolution would cycle); then the write
+          ((((((pLoad a s tx).andThen (pLoad b)).andThen (pGuard (a == b) .invalid)).andThen
+            (pGuard (a.kind != .concept || b.kind != .concept) .invalid)).andThen (pExpect a expect)).andThen
+            (pGuard (decide (a ∈ canonicalChain s tx b)) .invalid)).andThen (pMergeInto a b)
 
 def declareAll (cs : List Clause) (p : PS) : PS :=
   cs.foldl (fun p c => p.andThen (declareClause c)) p
